@@ -114,6 +114,11 @@ type Case struct {
 	Prog    Node   `json:"prog"`
 	Mutexes int    `json:"mutexes"`
 	Fault   *Fault `json:"fault,omitempty"`
+	// Twin: the program is the body of one function that two routines call at
+	// the same time - one compiled code object evaluated by both; each
+	// routine's trace must be the one the reference evaluator predicts
+	// (seeded change C07-m2: state collected lazily on the form object)
+	Twin bool `json:"twin,omitempty"`
 	// NoFaults restricts to the fault-free run.
 	NoFaults  bool     `json:"no_faults,omitempty"`
 	Policy    string   `json:"policy"`
@@ -445,8 +450,24 @@ func (e *engine) Generate(seed uint64, idx int, tier string, avoid []harness.Fin
 	c.Policy = []string{sched.PolicyRandom, sched.PolicyRandom, sched.PolicyPCT, sched.PolicyRTB, sched.PolicyRR}[r.Intn(5)]
 	c.SwitchPct = []int{5, 20, 50, 90}[r.Intn(4)]
 	c.YieldPct = []int{0, 5, 25}[r.Intn(3)]
+	if r.Pct(15) && twinnable(&c.Prog) {
+		c.Twin = true
+		c.SwitchPct = []int{50, 90}[r.Intn(2)]
+		c.YieldPct = []int{25, 100}[r.Intn(2)]
+	}
 	b, _ := json.Marshal(c)
 	return b
+}
+
+// twinnable: no files (both routines would append to the same file) and no
+// leaf that defines a function while it runs.
+func twinnable(n *Node) bool {
+	for _, k := range []string{"file", "recur", "fwd", "reuwp", "fn"} {
+		if hasKind(n, k) {
+			return false
+		}
+	}
+	return true
 }
 
 // ---- rendering ----
@@ -721,6 +742,32 @@ func (c *Case) source(dir string) string {
 		fmt.Fprintf(&b, " (run (with-mutex-lock m%d (sim-emit \"obs\" %d)))\n", i, i)
 	}
 	b.WriteString(" ")
+	if c.Twin {
+		// a function: its body is compiled once and shared by all callers
+		tf := "c07-twin-" + filepath.Base(dir)
+		fmt.Fprintf(&b, "(defun %s (twa) ", tf)
+		if c.Prog.K == "seq" {
+			// the top-level parts are the body forms themselves: compiled
+			// when the function is defined, shared before anybody ran them
+			for i := range c.Prog.Kids {
+				c.Prog.Kids[i].render(dir, &b)
+				b.WriteString(" ")
+			}
+		} else {
+			c.Prog.render(dir, &b)
+		}
+		b.WriteString(")\n(let ((tw (make-channel 2)))\n")
+		if c.Salt%2 == 0 {
+			// half of the cases: one call before the two routines start, so
+			// that every form has been compiled and evaluated once
+			fmt.Fprintf(&b, " (recover rec nil (%s 0))\n", tf)
+		}
+		// one (run ...) form started twice: both routines evaluate the same
+		// call site, and through it the same compiled body
+		fmt.Fprintf(&b, " (dolist (tv '(1 2)) (run (progn (recover rec (sim-emit \"twin-cond\") (sim-emit \"twin-start\") (%s 0) (sim-emit \"twin-val\")) (channel-push tw 1))))\n", tf)
+		b.WriteString(" (channel-pop tw) (channel-pop tw))))\n")
+		return b.String()
+	}
 	c.Prog.render(dir, &b)
 	b.WriteString("))\n")
 	return b.String()
@@ -817,7 +864,7 @@ func (e *engine) run(c *Case, f *Fault) runOut {
 	}
 	var out runOut
 	out.tp = tp
-	s := sched.New(sched.Config{Policy: c.Policy, SwitchPct: c.SwitchPct, YieldPct: c.YieldPct, PCTDepth: 2, PCTHorizon: 2000,
+	s := sched.New(sched.Config{Policy: c.Policy, SwitchPct: c.SwitchPct, YieldPct: c.YieldPct, PCTDepth: 2, PCTHorizon: 2000, HoldPct: holdPct(c),
 		Salt: c.Salt, Budget: 300000}, tp)
 	out.s = s
 	// the production interrupt seam
@@ -1203,6 +1250,40 @@ func (e *engine) Execute(raw json.RawMessage) (vd harness.Verdict) {
 			vd.Probes["eval_steps_total"] += out.evals
 		}
 		return nil
+	}
+	if c.Twin {
+		// several schedules of the two routines, no injected fault
+		tries := 6
+		if c.Replay {
+			tries = 1
+		}
+		seed0 := c.TapeSeed
+		for k := 0; k < tries; k++ {
+			if !c.Replay {
+				// a window of a few statements has to be met: vary the policy
+				// too (a strict alternation never parks one routine for long)
+				c.TapeSeed = tape.Mix(seed0, uint64(k))
+				c.Policy = []string{sched.PolicyRandom, sched.PolicyPCT, sched.PolicyRTB, sched.PolicyRandom, sched.PolicyPCT, sched.PolicyRR}[k%6]
+				c.SwitchPct = []int{90, 50, 20, 5, 50, 50}[k%6]
+			}
+			out := e.run(&c, nil)
+			vd.Evals++
+			vd.Steps += out.s.Stats.Steps
+			vd.Faults["context_switches"] += out.s.Stats.Switches
+			vd.Probes["twin_runs"]++
+			if v := rc.judgeTwin(out, vd.Probes); v != nil {
+				p := c
+				p.Tape = append([]uint32{}, out.tp.Rec...)
+				p.Replay = true
+				vd.Pinned, _ = json.Marshal(p)
+				vd.V = v
+				return
+			}
+			if out.s.Stats.Switches > 0 {
+				vd.Hashes = append(vd.Hashes, out.s.Hash())
+			}
+		}
+		return
 	}
 	if c.Fault != nil {
 		one(c.Fault)
@@ -1656,4 +1737,77 @@ func (rc *refCtx) judge(out runOut, f *Fault, probes map[string]int) *harness.Vi
 			f.At, rc.dry.steps, key, out.mainRes.Msg)
 	}
 	return nil
+}
+
+// judgeTwin: two routines evaluate the same compiled program at the same
+// time; they share nothing but the mutexes, so each one's trace is the trace
+// of the program run alone.
+func (rc *refCtx) judgeTwin(out runOut, probes map[string]int) *harness.Violation {
+	if len(out.res.Panics) > 0 {
+		cl, msg := lispsim.ConditionClass(out.res.Panics[0].PanicVal)
+		return viol("twin-died", "a routine died with %s: %s", cl, msg)
+	}
+	if out.res.Outcome == sched.Deadlock {
+		return viol("twin-deadlock", "the two routines running the same program never finished: %v; trace: %s", out.res.Stuck, trace(out.marks))
+	}
+	if out.res.Outcome == sched.Budget {
+		return viol("no-progress", "twin run: step budget exhausted: %v", out.res.Stuck)
+	}
+	if len(out.s.Misuse) > 0 {
+		return viol("runtime-misuse", "twin run: %v", out.s.Misuse)
+	}
+	if os.Getenv("C07_DEBUG") != "" {
+		fmt.Fprintln(os.Stderr, "twin races:", out.s.MapRaces, "windows:", out.s.Stats.MapWindows, "trace:", trace(out.marks))
+	}
+	for _, r := range out.s.MapRaces {
+		m := sched.RaceMap(r)
+		if strings.HasPrefix(m, "Package.") || m == "allFlavors" || strings.HasPrefix(m, "Function.Args") {
+			continue // recorded under C17
+		}
+		return viol("map-race:"+m, "two routines evaluating the same code meet at %s with nothing ordering them: %s", m, r)
+	}
+	if rc.bad != "" {
+		probes["ref_unsupported"]++
+		return nil
+	}
+	if rc.dry == nil {
+		d := refRun(rc.forms, rc.c.Mutexes, 0)
+		rc.dry = &d
+	}
+	if rc.dry.unsup != "" {
+		probes["ref_unsupported"]++
+		return nil
+	}
+	want := append([]string{"twin-start"}, rc.dry.marks...)
+	if rc.dry.err != "" {
+		want = append(want, "twin-cond")
+	} else {
+		want = append(want, "twin-val")
+	}
+	per := map[int][]string{}
+	for _, m := range out.marks {
+		if m.task != 0 && !strings.HasPrefix(m.text, "obs ") {
+			per[m.task] = append(per[m.task], normMark(m.text))
+		}
+	}
+	if len(per) != 2 {
+		return viol("twin-trace", "expected the traces of two routines, got %d; trace: %s", len(per), trace(out.marks))
+	}
+	for task, got := range per {
+		probes["twin_compared"]++
+		if strings.Join(got, "; ") != strings.Join(want, "; ") {
+			return viol("twin-trace", "routine %d, evaluating the same code as another routine at the same time, left the trace [%s]; run alone the program leaves [%s]",
+				task, strings.Join(got, "; "), strings.Join(want, "; "))
+		}
+	}
+	return nil
+}
+
+// holdPct: in twin runs a routine that opens a write window is kept there for
+// a while in half of the cases.
+func holdPct(c *Case) int {
+	if c.Twin {
+		return 50
+	}
+	return 0
 }
